@@ -166,6 +166,42 @@ def make_defaults(fc, given):
     return defaults
 
 
+def make_samelist(fc):
+    """four tables built by the REAL block constructor from one and the same list object (a template the application
+    reuses): the blocks are still four stores -- a write through fc changes its own table only, and not the template"""
+    L = body_len(fc, 1)
+    t = regfile.TABLE[fc]
+
+    def samelist(b: bytes) -> bool:
+        from pymodbus.factory import ServerDecoder
+        from pymodbus.datastore import ModbusSlaveContext
+        from pymodbus.datastore.store import ModbusSequentialDataBlock
+        assume(len(b) == L)
+        init = [0, 1, 0, 1]
+        assume(b[0] == 0)
+        assume(b[1] < 3)
+        if fc in (15, 16):
+            assume(regfile.u16(b, 2) == 1)
+        template = list(init)
+        blocks = {k: ModbusSequentialDataBlock(0, template) for k in "dcih"}
+        ctx = ModbusSlaveContext(di=blocks["d"], co=blocks["c"], ir=blocks["i"], hr=blocks["h"], zero_mode=True)
+        assume(regfile.verdict(fc, b, (0, list(init)), True) == 0)
+        req = ServerDecoder().decode(bytes([fc]) + b)
+        resp = req.execute(ctx)
+        if resp.function_code >= 0x80:
+            explain("valid request answered with exception %r", resp.exception_code)
+            return False
+        if list(template) != list(init):
+            explain("the caller's template list was changed by a write to a table built from it")
+            return False
+        for k in "dcih":
+            if k != t and list(blocks[k].values) != list(init):
+                explain("table %s changed by a write to table %s (both built from the same list)", k, t)
+                return False
+        return True
+    return samelist
+
+
 SPARSE_KEYS = [0, 1, 2, 3, 6, 7]       # a sparse table with a hole at 4..5 (and four contiguous cells before it)
 
 
@@ -295,6 +331,9 @@ def obligations(tier):
     T = 120 if tier == "quick" else 900
     out = [kernels.K3(tier)] + step_obligations(tier, False, "step") + extra_obligations(tier, False, "step")
     combos = [(6, "co"), (16, "di"), (5, "hr")] if tier == "quick" else [(6, "co"), (16, "di"), (5, "hr"), (15, "ir"), (22, "co"), (23, "di")]
+    for fc in ((6, 5) if tier == "quick" else (5, 6, 15, 16, 22)):
+        out.append(Obl("samelist.fc%d" % fc, make_samelist(fc), timeout=T, contracts=("bits",) if fc == 15 else (),
+                       bounds="four sequential blocks constructed from one list object ([0, 1, 0, 1]); fc %d write at address 0..2: the other tables and the caller's list unchanged" % fc))
     for fc, given in combos:
         out.append(Obl("defaults.fc%d.only-%s-supplied" % (fc, given), make_defaults(fc, given), timeout=T,
                        contracts=("bits",) if fc == 15 else (),
